@@ -45,10 +45,58 @@ pub struct Summary {
     pub probes: BTreeMap<String, u64>,
 }
 
-pub fn evaluate(plan: &Plan, out: &RunOut) -> Vec<Violation> {
+/// Violations plus observations.  Observations are outcomes the property tolerates (a stream that
+/// ends in an error although only finite faults were injected): they are counted and sampled in
+/// the evidence and, for C18, fed to the differential check, but never alarm on their own.
+pub struct Verdict {
+    pub violations: Vec<Violation>,
+    pub observations: Vec<Violation>,
+}
+
+pub fn evaluate(plan: &Plan, out: &RunOut) -> Verdict {
+    let mut obs = vec![];
+    let violations = evaluate_inner(plan, out, &mut obs);
+    Verdict { violations, observations: obs }
+}
+
+fn evaluate_inner(plan: &Plan, out: &RunOut, obs: &mut Vec<Violation>) -> Vec<Violation> {
     let p = plan.property.as_str();
     let pre = if p == "C18" { "c18" } else { "c20" };
     let mut vs = vec![];
+
+    // ---- memory safety of the sender's packet buffers (guarded allocator) and datagram size
+    if out.heap_overruns.0 > 0 {
+        vs.push(v(
+            p,
+            &format!("{pre}.heap_buffer_overrun"),
+            format!(
+                "{} heap buffer(s) written past their end; last: allocation of {} bytes, {} bytes past the end (mtu server {} clients {:?})",
+                out.heap_overruns.0,
+                out.heap_overruns.1,
+                out.heap_overruns.2,
+                plan.cfg.server_mtu,
+                plan.clients.iter().map(|c| c.mtu).collect::<Vec<_>>()
+            ),
+            if out.heap_overruns.2 <= 2 { "overrun<=2" } else { "overrun>2" },
+        ));
+    }
+    {
+        // a sender is configured with the peer's max_datagram_size (test_insert_pair): client ->
+        // server datagrams are bounded by the server's value, server -> client by the largest
+        // client value (the server keeps one entry per client)
+        let c2s_limit = plan.cfg.server_mtu as u32;
+        let s2c_limit = plan.clients.iter().map(|c| c.mtu as u32).max().unwrap_or(0);
+        for (d, limit) in [(0usize, c2s_limit), (1usize, s2c_limit)] {
+            if out.stats.max_len[d] > limit.max(64) {
+                vs.push(v(
+                    p,
+                    &format!("{pre}.datagram_exceeds_max_datagram_size"),
+                    format!("{} datagram of {} bytes, configured max_datagram_size {}", if d == 0 { "client->server" } else { "server->client" }, out.stats.max_len[d], limit),
+                    if out.stats.max_len[d] <= limit + 2 { "excess<=2" } else { "excess>2" },
+                ));
+            }
+        }
+    }
 
     // ---- panics
     if let Some(msg) = &out.panic {
@@ -115,7 +163,7 @@ pub fn evaluate(plan: &Plan, out: &RunOut) -> Vec<Violation> {
         vs.push(v(
             p,
             &format!("{pre}.hang"),
-            format!("virtual time {} s, no progress for >60 s, pending tasks={} : {}", out.end_ns / 1_000_000_000, out.app.pending, pending.join(" | ")),
+            format!("virtual time {} s, neither progress nor completion for >= 75 s (150 s in the vanish family) of virtual time, pending tasks={} : {}", out.end_ns / 1_000_000_000, out.app.pending, pending.join(" | ")),
             "",
         ));
     }
@@ -133,7 +181,7 @@ pub fn evaluate(plan: &Plan, out: &RunOut) -> Vec<Violation> {
             if fired == 0 && !app_drop {
                 vs.push(v(p, &format!("{pre}.error_without_fault"), describe(k, a), ""));
             } else if !app_drop {
-                vs.push(v(p, &format!("{pre}.error_under_finite_faults"), format!("{} ; faults fired {:?}", describe(k, a), out.stats.fired), ""));
+                obs.push(v(p, &format!("{pre}.error_under_finite_faults"), format!("{} ; faults fired {:?}", describe(k, a), out.stats.fired), ""));
             }
         }
     }
